@@ -2,7 +2,7 @@
    Only statements.  Model: Async/Conn.v.  Proved: the epilogue clause and the reuse clause (Request::close).  The one-call clause over the
    whole loop is decided by the correspondence check + oracle (it is the clause that exposed and now guards
    against finding F3) until its proof completes. *)
-From FV Require Import Base.Bytes Gen.Generated Codec.Header Codec.Bodies Parser.ReqModel Parser.StreamModel Async.Conn Async.ConnWrites Async.ConnLoop.
+From FV Require Import Base.Bytes Gen.Generated Codec.Header Codec.Bodies Parser.ReqModel Parser.StreamModel Async.Conn Async.ConnWrites Async.ConnLoop Codec.Varint Codec.NV Codec.Vars Parser.ReqWire Parser.ReqTargets Async.ConnTotal Async.ConnReads Async.LoopTargets Async.LoopProofs.
 
 (* Request::close, whenever it ends without an I/O error (reuse, or ConnectionReset because KeepConn was
    not set): after skipping to a record boundary WITHOUT writing anything, it writes exactly the pending
@@ -50,3 +50,74 @@ Proof. exact close_reuse_iff. Qed.
 Theorem C07_close_cases : forall maxc r1 disc code w1,
   close_tail_post maxc r1 disc code w1 (close_tail maxc r1 disc code w1).
 Proof. exact close_tail_always. Qed.
+
+(* ==== pinned from the proof files (tools/write_props.py) ==== *)
+
+(* 'exactly that request': Token::parse_request IS a read schedule of the request parser whose chunks are the
+   transport reads — whatever the transport does (any read sizes, Pending, any write pattern) *)
+Theorem C07_parse_request_is_a_schedule :
+  forall (norm : bytes -> bytes) (maxc : N) (fuel : nat) (p : parser) (new : bytes) 
+    (w : world) (s0 : sp) (w' : world),
+  parser_ok p ->
+  bytes_ok new ->
+  len new <= input_space p ->
+  world_ok w ->
+  parse_request norm maxc fuel p new w = Ok (inl s0) w' ->
+  exists (taken sched : list N) (p' : parser) (out : bytes),
+    remaining w = taken ++ remaining w' /\
+    (forall future : bytes,
+     bytes_ok future ->
+     len (held p ++ new ++ taken ++ future) < SIZE_LIMIT ->
+     run_schedule norm maxc p (new ++ taken ++ future) (len new :: sched) = SOk p' true future out) /\
+    into_stream_parser p' = inl s0 /\ wlog w' = wlog w ++ out.
+Proof. exact parse_request_sched. Qed.
+
+(* a reused connection's parser (leftover L of the previous request in its buffer) behaves exactly like a fresh
+   parser fed L first *)
+Theorem C07_leftover_as_fed :
+  forall (norm : bytes -> bytes) (maxc B : N) (L wire : bytes) (sched : list N) 
+    (p : parser) (d : bool) (u o : bytes),
+  B < SIZE_LIMIT - 8 ->
+  bytes_ok L ->
+  len L <= aligned_bufsize B ->
+  bytes_ok wire ->
+  len (L ++ wire) < SIZE_LIMIT ->
+  run_schedule norm maxc (new_parser B) (L ++ wire) (len L :: sched) = SOk p d u o ->
+  run_schedule norm maxc {| cap := aligned_bufsize B; held := L; st := Header |} wire (0 :: sched) =
+  SOk p d u o.
+Proof. exact leftover_as_fed. Qed.
+
+(* MAIN: if the client's stream (leftover of the previous request ++ everything still to be delivered) begins
+   with a well-formed preamble (as in C01: any junk, cuts, padding; pairs within the documented bound) and
+   parse_request hands over to a handler, the request the handler sees has exactly the transmitted id, role,
+   flags and environment; exactly the replies owed for the preamble's management records have been written; and
+   the stream parser starts with exactly the bytes that followed the preamble — for every transport behaviour *)
+Theorem C07_handler_sees_exactly_the_request :
+  forall (norm : bytes -> bytes) (maxc : N) (fuel : nat) (B : N) (L : bytes) (w : world) 
+    (pw : preamble) (pairs : list (bytes * bytes)) (trailing : bytes) (s0 : sp) 
+    (w' : world),
+  B < SIZE_LIMIT - 8 ->
+  bytes_ok L ->
+  len L <= aligned_bufsize B ->
+  world_ok w ->
+  preamble_ok pw ->
+  Forall pair_ok pairs ->
+  nv_write_all pairs = Some (preamble_payload pw) ->
+  Forall (pair_fits (aligned_bufsize B)) pairs ->
+  preamble_fits (aligned_bufsize B) pw ->
+  bytes_ok trailing ->
+  len (enc_rcds (preamble_rcds pw) ++ trailing) < SIZE_LIMIT ->
+  L ++ remaining w = enc_rcds (preamble_rcds pw) ++ trailing ->
+  parse_request norm maxc fuel {| cap := aligned_bufsize B; held := L; st := Header |} [] w =
+  Ok (inl s0) w' ->
+  sreq s0 = {| r_id := w_id pw; r_role := w_role pw; r_flags := w_flags pw; r_env := env_log norm pairs |} /\
+  wlog w' = wlog w ++ preamble_replies maxc pw /\
+  raw_bytes s0 ++ remaining w' = trailing /\
+  stream s0 = next_input_stream (w_role pw) None /\ output_buffer s0 = [] /\ stream_buffer s0 = [].
+Proof. exact handler_sees_request. Qed.
+
+(* non-vacuity of C07_handler_sees_exactly_the_request: a concrete connection (B = 160, a GetValues junk record inside
+   the preamble, leftover = 5 bytes, two client segments, Pending reads and writes) satisfies every hypothesis *)
+Example C07_handler_sees_example : forall s0 w', lp_run = Ok (inl s0) w' ->
+  sreq s0 = mkReq 9 ROLE_Responder 1 lp_pairs /\ wlog w' = preamble_replies 5 lp_pw /\ raw_bytes s0 ++ remaining w' = lp_trailing.
+Proof. exact handler_sees_request_instance. Qed.
